@@ -145,9 +145,6 @@ Definition k_kf_uid_collision (k : o_case) : bool :=
   | _, _ => false
   end.
 
-(* C02: every evaluation on every instance gave the same bytes *)
-Definition K02 (k : o_case) : bool := k_det k.
-
 (* C03 (outcome clauses): the outcome of valid inputs passes the network's own validation and
    fits the advertised length *)
 Definition K03 (k : o_case) : bool :=
@@ -166,6 +163,29 @@ Definition qblocks (thr : nat) (obs : list observation) : list blockkey :=
 
 Definition carried (agreed : list result) (prev : list (list proposal)) : list (list proposal) :=
   map (filter (fun p => negb (existsb (fun r => r_wid r =? p_wid p) agreed))) prev.
+
+(* C02: every evaluation on every instance gave the same bytes, and the orderings used for
+   tie-breaking / truncation are the ones determined by (config digest, sequence number) alone: the
+   harness computes the shuffle ranks outside any plug-in instance from exactly those two inputs *)
+Fixpoint sorted_strict (l : list N) : bool :=
+  match l with
+  | a :: ((b :: _) as t) => (a <? b) &&& sorted_strict t
+  | _ => true
+  end.
+Definition K02 (k : o_case) : bool :=
+  k_det k &&&
+  match observed_outcome k with
+  | None => true
+  | Some o =>
+      sorted_strict (map (fun r => shuf_of k (r_wid r)) (oc_agreed o))
+      &&& match prev_valid k, oc_surfaced o with
+          | Some p, new :: rest =>
+              (* a freshly added round (recognised by not being the carried-over head) is in shuffle order *)
+              if list_eqb (list_eqb prop_eqb) (oc_surfaced o) (carried (oc_agreed o) (oc_surfaced p)) then true
+              else sorted_strict (map (fun q => shuf_of k (p_wid q)) new)
+          | _, _ => true
+          end
+  end.
 
 Definition same_unit (p q : proposal) : bool :=
   (p_upk p =? p_upk q) && (p_wid p =? p_wid q) &&
